@@ -199,6 +199,11 @@ def load_known():
     return json.loads(f.read_text()).get("findings", [])
 
 
+# 128+signal as reported through a shell, and 101 = a Rust panic that escaped the per-record guard (the harness's own
+# `expect` on a call that must succeed on honest inputs, e.g. reading back what was just written)
+CRASH_CODES = (101, 132, 134, 135, 136, 139)
+
+
 class ImplCrash(Exception):
     """the harness process (that is: the library under test) died with a signal on this record"""
     def __init__(self, record, rc):
@@ -221,7 +226,7 @@ class Ctx:
     def harness_gen(self, binpath, tier, seed, tag=""):
         out = self.work / f"records{tag}.txt"
         rc, log = run([str(binpath), "gen", tier, str(seed), str(out)], timeout=3000)
-        if rc < 0 or rc in (132, 134, 135, 136, 139):
+        if rc < 0 or rc in CRASH_CODES:
             # the implementation died with a signal (not a Rust panic: those are caught per record): find the record
             lst = self.work / f"list{tag}.txt"
             rc2, _ = run([str(binpath), "list", tier, str(seed), str(lst)], timeout=3000)
@@ -239,7 +244,7 @@ class Ctx:
         def dies(k):
             inp.write_text("\n".join(lines[:k]) + "\n")
             rc, _ = run([str(binpath), "exec", str(inp), str(outp)], timeout=3000)
-            return rc < 0 or rc in (132, 134, 135, 136, 139)
+            return rc < 0 or rc in CRASH_CODES
         if not lines or not dies(len(lines)):
             return None
         lo, hi = 0, len(lines)          # dies(hi) holds, dies(lo) does not
@@ -252,12 +257,12 @@ class Ctx:
         rec = lines[hi - 1]
         inp.write_text(rec + "\n")
         rc, _ = run([str(binpath), "exec", str(inp), str(outp)], timeout=3000)
-        return rec if (rc < 0 or rc in (132, 134, 135, 136, 139)) else None
+        return rec if (rc < 0 or rc in CRASH_CODES) else None
 
     def harness_exec(self, binpath, inp, tag="_replay"):
         out = self.work / f"records{tag}.txt"
         rc, log = run([str(binpath), "exec", str(inp), str(out)], timeout=3000)
-        if rc < 0 or rc in (132, 134, 135, 136, 139):
+        if rc < 0 or rc in CRASH_CODES:
             rec = self.find_crash(binpath, Path(inp).read_text().splitlines(), tag)
             if rec is not None:
                 raise ImplCrash(rec, rc)
@@ -430,8 +435,8 @@ def generic_check(prop, tier, seed, cfg, replay=None):
         exit_code = 1
     elif crash is not None:
         rp = write_replay(prop, "crash", {"property": prop, "kind": "implementation-crash",
-                                         "what": f"the library dies with a signal (harness exit status {crash.rc}) while executing this record: no result is produced, "
-                                                 "memory safety / totality of an admissible call is violated",
+                                         "what": f"the harness process dies (exit status {crash.rc}: a signal, or 101 = a panic outside the guarded call, i.e. a step the harness "
+                                                 "requires to succeed on honest inputs failed) while executing this record: no result is produced",
                                          "records": [crash.record.rsplit("#", 1)[0] + "#"],
                                          "replay_cmd": f"python3 tools/check.py {prop} --replay <this file>"})
         print(f"VIOLATION property={prop} replay={rp}")
@@ -439,7 +444,17 @@ def generic_check(prop, tier, seed, cfg, replay=None):
     elif corr_error or diffs or proof_broken:
         # property no longer shown to hold: widen the search for a failing input before reporting
         found = None
-        if corr_error is None and hasattr(cfg, "search"):
+        # the harnesses that run every record under two different scratch fills report a difference between the two
+        # runs with this message: the record is then itself a failing input (the result is not a function of the inputs)
+        dep = next((d for d in diffs if d["record"].endswith("PANIC:output depends on the prior contents of the scratch arena")), None)
+        if dep is not None:
+            found = {"property": prop, "kind": "scratch-dependence",
+                     "what": "the operation's output differs between two runs of this record that differ only in the bytes the scratch arena held beforehand "
+                             "(the model, which has no scratch input, predicts one result)",
+                     "records": [dep["record"].rsplit("#", 1)[0] + "#"], "observed": dep["record"][-300:], "profile": dep["profile"],
+                     "n_such_records": sum(1 for d in diffs if d["record"].endswith("prior contents of the scratch arena")),
+                     "replay_cmd": f"python3 tools/check.py {prop} --replay <this file>"}
+        if found is None and corr_error is None and hasattr(cfg, "search"):
             found = cfg.search(ctx, diffs)
         if found:
             rp = write_replay(prop, "search", found)
